@@ -111,13 +111,19 @@ func TestC08(t *testing.T) {
 		sp.Fam = strings.TrimPrefix(sp.Sock, "x")
 		cases = append(cases, mon.CaseSpec{Name: "vt-" + sp.Sock, Spec: sp})
 	}
+	for i := 0; i < r.Pick(40, 600); i++ {
+		sp := c08Spec{Kind: "churn", Fam: "star", Sock: []string{"star", "xstar"}[i%2], Shape: []int{rnd.Intn(4)}, Steps: 1500 + rnd.Intn(2500), Procs: procs[rnd.Intn(len(procs))]}
+		cases = append(cases, mon.CaseSpec{Name: "churn-" + sp.Sock, Spec: sp})
+	}
 	r.Run(cases, func(c *mon.Case) {
 		sp := c.Spec.(c08Spec)
 		if sp.Procs > 0 {
 			old := runtime.GOMAXPROCS(sp.Procs)
 			c.Cleanup(func() { runtime.GOMAXPROCS(old) })
 		}
-		if sp.Kind == "vt" {
+		if sp.Kind == "churn" {
+			c08Churn(c, sp)
+		} else if sp.Kind == "vt" {
 			c08VT(c, sp)
 		} else {
 			c08Topo(c, sp)
@@ -436,6 +442,9 @@ func c08Topo(c *mon.Case, sp c08Spec) {
 	// devices
 	var fwdMu sync.Mutex
 	forwarded, hdrIsPipe := 0, 0
+	// half of the hand-written forwarders re-send what they received in a message of their own
+	// (same header and body, no Pipe): the origin must be told from the header, not from the object
+	freshCopy := c.Rand.Intn(2) == 0
 	manual := func(from, to mangos.Socket) {
 		helpers.Add(1)
 		go func() {
@@ -445,9 +454,16 @@ func c08Topo(c *mon.Case, sp c08Spec) {
 				if err != nil {
 					return
 				}
+				if freshCopy {
+					m2 := mangos.NewMessage(len(m.Body))
+					m2.Header = append(m2.Header, m.Header...)
+					m2.Body = append(m2.Body, m.Body...)
+					m.Free()
+					m = m2
+				}
 				fwdMu.Lock()
 				forwarded++
-				if len(m.Header) == 4 && m.Pipe != nil && bytes.Equal(m.Header, hx.Be32(m.Pipe.ID())) {
+				if len(m.Header) == 4 && (freshCopy || (m.Pipe != nil && bytes.Equal(m.Header, hx.Be32(m.Pipe.ID())))) {
 					hdrIsPipe++
 				}
 				fwdMu.Unlock()
